@@ -347,10 +347,18 @@ class Atomizer:
             if t.op != "eq" or t.args[0].sort != "Real":
                 continue
             d = T.sub(t.args[0], t.args[1])
-            if d.op != "add" or len(d.args) < 3 or d.val[0] != 0 or not all(a.op == "var" and a is not T.PI for a in d.args):
+            if d.op != "add" or not all(a.op == "var" and a is not T.PI for a in d.args):
+                continue
+            c0 = d.val[0]
+            pim0 = T._pi_multiple(c0) if c0 != 0 else Fraction(0)
+            # homogeneous relations between 3+ variables; with a constant term that is a multiple of pi/24 (an angle
+            # variable equal to a constant, `theta + pi == 0`) from one variable on, for angles only
+            if (c0 == 0 and len(d.args) < 3) or (c0 != 0 and pim0 is None):
                 continue
             for tab, Ls, mulf in ((self.trig_vars, self.trigL, _cmul), (self.hyp_vars, self.hypL, _hmul)):
                 if not all(a.id in tab for a in d.args):
+                    continue
+                if c0 != 0 and tab is not self.trig_vars:
                     continue
                 ks = [c * Ls.get(a.id, 1) for c, a in zip(d.val[1], d.args)]
                 den = 1
@@ -362,7 +370,12 @@ class Atomizer:
                 acc = (T.ONE, T.ZERO)
                 for k, a in zip(ks, d.args):
                     acc = mulf(acc, _power(tab[a.id], k, mulf, _conj))
-                self.axioms.append(T.implies(t, T.and_(T.eq(acc[0], T.ONE), T.eq(acc[1], T.ZERO))))
+                target = (T.ONE, T.ZERO)
+                if c0 != 0:
+                    # sum_i ks_i (x_i / L_i) = -den * c0
+                    tc = self.pi_const(-pim0 * den)
+                    target = (self.rw(tc[0]), self.rw(tc[1]))
+                self.axioms.append(T.implies(t, T.and_(T.eq(acc[0], target[0]), T.eq(acc[1], target[1]))))
 
     def _links(self):
         """relate a base variable that also occurs as a plain real to its atoms; bound pi"""
